@@ -1,6 +1,10 @@
 import CJ.Drv.Loop
-/-! Driver for C09 (stub until the models are written). -/
+import CJ.Drv.Registry
+import CJ.Drv.RegistryConc
+/-! Driver for C09: the sequential registry model and its concurrent extension. -/
 open CJ.Drv
 
 def main : IO Unit := runDriver fun
+  | "registry" :: args => Registry.handle args
+  | "conc" :: args => RegistryConc.handle args
   | _ => none
